@@ -7,7 +7,7 @@
 
 package procbuilder
 
-//@ props C04
+//@ props C02 C04
 
 // operand fields of an I/O instruction word
 //@ spec fReg(vm *VM, instr string) int := val(sub(instr, 0, int(vm.Mach.R)))
@@ -27,7 +27,7 @@ package procbuilder
 //@   ensures wait: !old(vm.OutputsRecv[fOut(vm, instr)]) ==> vm.Pc == old(vm.Pc) && vm.OutputsValid[fOut(vm, instr)]
 //@   assigns vm.Outputs[fOut(vm, instr)], vm.OutputsValid[fOut(vm, instr)], vm.Pc
 
-//@ props C04 C09
+//@ props C02 C04 C09
 //@ func (vm *VM) AddDeferredInstruction(diName string, di DeferredInstruction) error
 //@   reads vm.DeferredInstructions, vm.DeferredInstructions[*]
 //@   ensures registered: vm != nil && vm.DeferredInstructions != nil ==> result == nil && haskey(vm.DeferredInstructions, diName)
@@ -50,7 +50,7 @@ package procbuilder
 //@   ensures holds: !result ==> vm.InputsRecv[inp] == old(vm.InputsRecv[inp])
 //@   assigns vm.InputsRecv[inp]
 
-//@ props C04
+//@ props C02 C04
 //@ func (op I2rw) Simulate(vm *VM, instr string) error
 //@   requires vm != nil && vm.Mach != nil && 1 <= int(vm.Mach.R) && int(vm.Mach.R) <= 30 && sepFlags(vm) && vm.Pc < pow2(63) && vm.DeferredInstructions != nil
 //@   requires len(instr) >= int(vm.Mach.R) + vm.Mach.Inputs_bits()
